@@ -226,6 +226,15 @@ func gbkUTF8Pairs() []string {
 			}
 			gbkPairs = append(gbkPairs, string(u))
 		}
+		// mojibake of real-world texts: the UTF-8 bytes of a province abbreviation + letter (a licence plate prefix), of CJK
+		// punctuation and of a few common words, READ AS GBK — the resulting (odd-looking) text is perfectly GBK-encodable and its
+		// GBK bytes are the UTF-8 spelling of something plausible: what "looks like UTF-8 / looks like a plate" shortcuts misread
+		for _, w := range []string{"京", "津", "沪", "渝", "冀", "豫", "云", "辽", "黑", "湘", "皖", "鲁", "新", "苏", "浙", "赣", "鄂", "桂", "甘", "晋", "蒙", "陕", "吉", "闽", "贵", "粤", "青", "藏", "川", "宁", "琼", "警", "学", "挂", "·", "测试", "中国"} {
+			for _, tail := range []string{"A", "B", "Z", "0", "a"} {
+				try([]byte(w + tail))
+				try([]byte(w + w + tail))
+			}
+		}
 		try([]byte{0xef, 0xbb, 0xbf, 0x41}) // the UTF-8 byte-order mark
 		try([]byte{0xef, 0xbb, 0xbf, 0x61})
 		for b0 := 0xe0; b0 <= 0xef; b0++ {
